@@ -55,6 +55,10 @@ add("C12", "model_checking",
     "All 48 allowed-version sets (16 subsets of {5,7,9,10} x extras) x every buffer of 1..=3 (thorough 4) packets over a 16-packet menu x 4 prior cache states, each compared with a parser that allows all 65 536 versions started from the same state: result = maximal leading part with allowed versions; caches = those of the all-allowing parser fed only that part; unknown allowed versions are UnknownVersion errors.",
     "trusted: c12::judge",
     "bounded-exhaustive enumeration of configurations x buffers x states (differential oracle)", "DESIGN.md §5 C12", "E-ENUM")
+add("C13", "model_checking",
+    "Parser and conversion are run together over: V5/V7 walking-byte and all materialised counts; V9 and IPFIX templates made of EVERY subset of the projected fields (2048 subsets: source/destination address each absent/IPv4/IPv6/both, ports, protocol, first, last, MACs) in three field orders, 1..=3 records, 1..=2 data sets; and the flattening helper over all chains of <=3 (thorough 4) packets x 4 prior cache states. The expected view is the projection of the independent reference decode (one flow per record, member = decoded field, None iff the template lacks it).",
+    "trusted: refmodel.rs and c13::project; IPv4 is projected when both address families are present",
+    "bounded-exhaustive enumeration of template subsets vs projection of the reference model", "DESIGN.md §5 C13", "E-ENUM")
 add("C14", "fault_enumeration",
     "Every cut point strictly inside every seed packet (V5/V7 with 0,1,2,3,30(,max) records; V9 and IPFIX template / data / template+data / options packets over all class representatives; V9 flowset boundaries excluded as the property says) alone, after a V5 packet and after the template packet it needs: the last element must be an error carrying exactly the truncated packet, earlier elements unchanged, and V5/V7/IPFIX caches unchanged.",
     "seed validity (decodes without error, single packet) is asserted at run time; trusted: c14::judge",
